@@ -6,7 +6,7 @@ VARIABLES vs, s, phase
 V(n, r) == [name |-> n, raw |-> r]
 Pool == {V(<<"F", "o", "o">>, FALSE), V(<<"F", "O", "O">>, FALSE), V(<<"f", "o", "o">>, FALSE),
          V(<<"B", "a">>, FALSE), V(<<"B", "A">>, FALSE), V(<<"f", "n">>, TRUE), V(<<"F", "n">>, FALSE),
-         V(<<"a">>, FALSE)}
+         V(<<"a">>, FALSE), V(<<"U+C4", "a">>, FALSE), V(<<"U+E4", "a">>, FALSE)}
 
 Init == vs = <<>> /\ s = <<>> /\ phase = "enum"
 AddVariant == phase = "enum" /\ Len(vs) < MaxVariants /\ \E v \in Pool :
